@@ -157,8 +157,12 @@ package crdt
 //@ func (*Counter).Delta -> (d, err)
 //@   ensures err == nil && !res(Has, 1, 0) ==> as(d, *CounterDelta).Nonce == 0
 //@   ensures err == nil ==> sameslice(as(d, *CounterDelta).Data, res(FieldValue.Bytes, 1, 0))
+//@   // "the document exists" is what decides whether the block gets a nonce: the key that is probed is the
+//@   // primary key of this counter's document (an update of a counter that has no value yet is still an update:
+//@   // without the nonce two equal concurrent increments are one block and one of them is lost)
+//@   assert before call#1 Has: callarg(DataStoreKey.ToPrimaryDataStoreKey, 1, 0) == m.key && callarg(PrimaryDataStoreKey.Bytes, 1, 0) == res(DataStoreKey.ToPrimaryDataStoreKey, 1, 0) && sameslice(arg2, res(PrimaryDataStoreKey.Bytes, 1, 0))
 //@   modifies failed, storeFailed
-//@   tags C13 C04
+//@   tags C13 C04 C02
 //@
 //@ // the value key that is read, compared and written is the one selected by the object marker
 //@ // (the deleted-flag variant for a deleted document), never a different variant of the key
